@@ -16,7 +16,7 @@ namespace {
 struct Mon {
     std::string key, msg; double cutoff = 0; int nb_types_min = 99;
     std::set<unsigned> ever, retired, prev_ids; long checks = 0, couplings_checked = 0, faces_checked = 0, max_cells = 0;
-    long divisions = 0, removals = 0, removal_first = 0, removal_middle = 0, removal_last = 0, iters_with_couplings = 0; std::vector<unsigned> prev_order;
+    long divisions = 0, removals = 0, removal_first = 0, removal_middle = 0, removal_last = 0, iters_with_couplings = 0, shrunk_to_one = 0; std::vector<unsigned> prev_order;
     void viol(const std::string& k, const std::string& m) { if (key.empty()) { key = k; msg = m; } }
 };
 struct StopRun {};   // thrown by the phase hook (master thread, outside parallel regions) to end a run at the first violation
@@ -48,6 +48,7 @@ static void on_phase_impl(int tag, const std::vector<cell_ptr>* lp) {
         if (tag == 2) { long gone = 0; for (unsigned id : m->prev_ids) if (!ids.count(id)) gone++; m->divisions += gone; }
         if (tag == 10) { for (size_t k = 0; k < m->prev_order.size(); k++) if (!ids.count(m->prev_order[k])) { m->removals++; if (k == 0) m->removal_first++; else if (k + 1 == m->prev_order.size()) m->removal_last++; else m->removal_middle++; } }
         for (unsigned id : m->prev_ids) if (!ids.count(id)) m->retired.insert(id);
+        if (tag == 10 && L.size() == 1 && m->prev_order.size() == 2) m->shrunk_to_one++;
         m->prev_ids = ids; m->prev_order = order;
     } else { m->prev_ids = ids; m->prev_order.clear(); for (auto& c : L) m->prev_order.push_back(c->get_id()); }
     for (unsigned id : ids) m->ever.insert(id);
@@ -93,6 +94,7 @@ static tis::Scenario make_pop(Rng& g, int iterations, bool few_face_types_epithe
     tis::Scenario s; s.P = tis::base_params(g); s.iterations = iterations; s.family = "population";
     const double r = 4.2e-6 * g.uni(0.9, 1.1), V0 = 4.0 / 3.0 * M_PI * r * r * r * 0.93, gap = 0.4e-6 * g.uni(0.5, 1.0);
     int nx = g.range(2, 5), ny = g.range(1, 3); if (nx * ny > 12) ny = 2;
+    if (g.coin(0.2)) { nx = 2; ny = 1; }   // adhering pair: the removal of one cell leaves a population of exactly one cell
     auto epi = [&](int nft) { cell_type_parameters c = tis::base_type(0, g, V0); while ((int)c.face_types_.size() > nft) c.face_types_.pop_back(); while ((int)c.face_types_.size() < nft) { face_type_parameters f = c.face_types_[0]; f.face_type_global_id_ = (short)(10 + c.face_types_.size()); f.name_ = "extra"; c.face_types_.push_back(f); } return c; };
     int nft_div = few_face_types_epithelial ? g.range(1, 2) : (g.coin() ? 3 : 5);
     cell_type_parameters stay = epi(few_face_types_epithelial ? g.range(1, 2) : (g.coin() ? 3 : 5)); stay.name_ = "epi_stay"; s.types.push_back(stay);
@@ -133,7 +135,7 @@ static std::string run_one(const Args& a, long i) {
     if (!mon.key.empty()) c.viol(mon.key, mon.msg);
     c.nontrivial = (mon.divisions + mon.removals) > 0;
     c.sig = hash_combine(hash_combine((uint64_t)mon.divisions, (uint64_t)mon.removals * 7919), hash_combine((uint64_t)cells0 * 31 + (uint64_t)cells1, (uint64_t)mon.couplings_checked));
-    c.obs.i("cells_start", cells0).i("cells_end", cells1).i("iterations", done).i("divisions", mon.divisions).i("removals", mon.removals).i("removal_first", mon.removal_first).i("removal_middle", mon.removal_middle).i("removal_last", mon.removal_last)
+    c.obs.i("cells_start", cells0).i("cells_end", cells1).i("iterations", done).i("divisions", mon.divisions).i("removals", mon.removals).i("shrunk_to_one_cell", mon.shrunk_to_one).i("removal_first", mon.removal_first).i("removal_middle", mon.removal_middle).i("removal_last", mon.removal_last)
         .i("phase_checks", mon.checks).i("couplings_checked", mon.couplings_checked).i("faces_checked", mon.faces_checked).i("iterations_with_couplings", mon.iters_with_couplings).i("ids_seen", (long)mon.ever.size()).i("ids_retired", (long)mon.retired.size()).s("ended", ended).s("what", what.substr(0, 120)).i("threads", a.threads).b("few_face_types", few);
     return c.line();
 }
@@ -147,7 +149,7 @@ static int cmd_population(const Args& a) {
         if (!r.completed) { emit(crash_line(i, r)); agg.bin(r.timeout ? "timeout" : "crash"); continue; }
         const std::string& L = r.line;
         auto num = [&](const std::string& k) -> long { size_t p = L.find("\"" + k + "\":"); if (p == std::string::npos) return 0; return atol(L.c_str() + p + k.size() + 3); };
-        for (const char* k : {"iterations", "divisions", "removals", "removal_first", "removal_middle", "removal_last", "phase_checks", "couplings_checked", "faces_checked", "iterations_with_couplings", "ids_retired"}) agg.bin(k, num(k));
+        for (const char* k : {"iterations", "divisions", "removals", "shrunk_to_one_cell", "removal_first", "removal_middle", "removal_last", "phase_checks", "couplings_checked", "faces_checked", "iterations_with_couplings", "ids_retired"}) agg.bin(k, num(k));
         if (L.find("\"ended\":\"exception\"") != std::string::npos) agg.bin("ended_by_exception");
         if (L.find("\"ended\":\"unstable\"") != std::string::npos) agg.bin("ended_unstable");
         if (L.find("\"nt\":true") != std::string::npos) { agg.nontrivial++; size_t p = L.find("\"sig\":\""); if (p != std::string::npos) agg.sigs[strtoull(L.substr(p + 7, 16).c_str(), nullptr, 16)] = 1; }
